@@ -53,8 +53,101 @@ fn diff(a: &Prof, b: &Prof) -> f64 {
     }
     d
 }
+/// `realprobe --batch FILE [reps]`: FILE holds JSON lines {"idx", "ill", "case"} (harness
+/// `dumpcases`); every case is solved with 1 and with K REAL rayon threads `reps` times.
+fn batch(path: &str, reps: usize) {
+    let text = std::fs::read_to_string(path).unwrap();
+    let (mut total, mut well, mut div_well, mut div_ill, mut panics, mut errs) = (0, 0, 0, 0, 0, 0);
+    let mut first: Vec<String> = vec![];
+    for line in text.lines().filter(|l| !l.trim().is_empty()) {
+        let doc: Value = serde_json::from_str(line).unwrap();
+        let c = &doc["case"];
+        let ill = !doc["ill"].is_null();
+        let game = match Game::from_root(parse(&c["game"])) {
+            Ok(g) => g,
+            Err(_) => continue,
+        };
+        total += 1;
+        if !ill {
+            well += 1;
+        }
+        let params = params_of(c);
+        let t: u64 = c["t"].as_str().unwrap().parse().unwrap();
+        let k: usize = c["k"].as_str().unwrap().parse().unwrap();
+        let thresh = jf(&c["thresh"]);
+        let mut maxd = 0.0f64;
+        let mut bad = false;
+        for _ in 0..reps {
+            let r = std::panic::catch_unwind(std::panic::AssertUnwindSafe(|| {
+                let one = game.solve(SolveMethod::Full, t, thresh, 1, params);
+                let many = game.solve(SolveMethod::Full, t, thresh, k, params);
+                match (one, many) {
+                    (Ok((a, ba)), Ok((b, bb))) => {
+                        let mut d = diff(&named(&a), &named(&b));
+                        // bounds relative to the payoff range are compared by the harness; here a gross check
+                        let (x, y) = (ba.regret_bound(), bb.regret_bound());
+                        if x.is_finite() != y.is_finite() || (x.is_finite() && (x - y).abs() > 1e-6 * x.abs().max(y.abs()).max(1e-300)) {
+                            d = d.max(1.0);
+                        }
+                        Ok(d)
+                    }
+                    (Err(_), Err(_)) => Ok(0.0),
+                    _ => Err(()),
+                }
+            }));
+            match r {
+                Err(_) => {
+                    panics += 1;
+                    bad = true;
+                }
+                Ok(Err(_)) => {
+                    errs += 1;
+                    bad = true;
+                }
+                Ok(Ok(d)) => maxd = maxd.max(d),
+            }
+        }
+        if maxd > 1e-7 || bad {
+            if ill {
+                div_ill += 1;
+            } else {
+                div_well += 1;
+                if first.len() < 10 {
+                    first.push(format!("idx={} k={} t={} diff={:.3e}", doc["idx"], k, t, maxd));
+                }
+            }
+        }
+    }
+    println!("BATCH cases={total} well_conditioned={well} diverging_well_conditioned={div_well} diverging_ill_conditioned={div_ill} panics={panics} error_kind_mismatches={errs} reps={reps}");
+    for f in first {
+        println!("  {f}");
+    }
+}
+
+fn params_of(c: &Value) -> Option<RegretParams> {
+    match &c["params"] {
+        Value::String(s) => match s.as_str() {
+            "default" => None,
+            "vanilla" => Some(RegretParams::vanilla()),
+            "lcfr" => Some(RegretParams::lcfr()),
+            "cfr_plus" => Some(RegretParams::cfr_plus()),
+            "dcfr" => Some(RegretParams::dcfr()),
+            _ => Some(RegretParams::dcfr_prune()),
+        },
+        o => {
+            let a = o["new"].as_array().unwrap();
+            Some(RegretParams::new(jf(&a[0]), jf(&a[1]), jf(&a[2]), jf(&a[3])))
+        }
+    }
+}
+
 fn main() {
     let args: Vec<String> = std::env::args().collect();
+    if args.get(1).map(|s| s.as_str()) == Some("--batch") {
+        std::panic::set_hook(Box::new(|_| {}));
+        batch(&args[2], args.get(3).and_then(|s| s.parse().ok()).unwrap_or(3));
+        return;
+    }
     let doc: Value = serde_json::from_str(&std::fs::read_to_string(&args[1]).unwrap()).unwrap();
     let reps: usize = args.get(2).and_then(|s| s.parse().ok()).unwrap_or(20);
     let c = &doc["case"];
